@@ -518,7 +518,7 @@ struct TileSrc {
 
 pub fn c05(ctx: Arc<Ctx>) {
 	ctx.rule(
-		"real `versatiles serve` binary (best and --fast) with 12 sources (versatiles x 3 stored compressions x {pbf,png}, mbtiles, pmtiles, two PMTiles archives with leaf directories (2 and 3 entries per leaf) from the independent encoder, a directory and a tar source that also hold a zero-length tile, sources with tiles of 1 MiB / 4 MiB + 1 / 5 MiB stored gzip and brotli, sources with three 20 KiB tiles that agree in head and tail); a versatiles container served from an http upstream that answers exactly one request with 503, for every position of that request after start-up (afterwards every stored tile must be served again); requests: Accept-Encoding absent + all 32 subsets of {gzip,br,deflate,identity,zstd} + all 20 ordered pairs, x case {lower,UPPER,Mixed} x weights {none,;q=1,;q=0.5} on a stored and an absent coordinate (thorough: every ordered arrangement of every subset = 326 lists x 3 cases x weights {none,;q=1,;q=0.5,;q=0.001,; q=1.0,mixed per token} x separators {', ', ',', ' ,<tab>'}); \
+		"real `versatiles serve` binary (best and --fast) with 34 sources (versatiles x 3 stored compressions x {pbf,png}, every other tile format as a versatiles file and as a directory with the format's file extension ('.jpeg' too) and compression suffix, two pipeline files overlaying sources of different stored compressions, mbtiles, pmtiles, two PMTiles archives with leaf directories (2 and 3 entries per leaf) from the independent encoder, a directory and a tar source that also hold a zero-length tile, sources with tiles of 1 MiB / 4 MiB + 1 / 5 MiB stored gzip and brotli, sources with three 20 KiB tiles that agree in head and tail); a versatiles container served from an http upstream that answers exactly one request with 503, for every position of that request after start-up (afterwards every stored tile must be served again); requests: Accept-Encoding absent + all 32 subsets of {gzip,br,deflate,identity,zstd} + all 20 ordered pairs, x case {lower,UPPER,Mixed} x weights {none,;q=1,;q=0.5} on a stored and an absent coordinate (thorough: every ordered arrangement of every subset = 326 lists x 3 cases x weights {none,;q=1,;q=0.5,;q=0.001,; q=1.0,mixed per token} x separators {', ', ',', ' ,<tab>'}); \
 		 coordinate classes (stored, absent in range, x or y = 2^z, 2^32-1, z stored/absent/31/32/255/256, non-numeric parts, empty parts) x extension {none,.png,.pbf,.x} with 3 Accept-Encoding values; every request twice (cold/warm). raw HTTP/1.1 client over keep-alive connections. \
 		 non-trivial = distinct 200 responses whose Content-Encoding differs from the stored compression",
 	);
@@ -570,6 +570,39 @@ pub fn c05(ctx: Arc<Ctx>) {
 		srcs.push(TileSrc { id: "dirsrc".into(), format: TileFormat::PNG, tiles: with_empty.clone(), kind: "directory" });
 		srcs.push(TileSrc { id: "tarsrc".into(), format: TileFormat::PNG, tiles: with_empty, kind: "tar" });
 	}
+	// every other tile format: a versatiles file (stored compressions in rotation) and a directory whose files carry the
+	// format's extension (".jpeg" as the second spelling of jpg) plus the compression suffix of the directory layout
+	{
+		let others: [(TileFormat, &str); 9] = [(TileFormat::AVIF, "avif"), (TileFormat::BIN, "bin"), (TileFormat::GEOJSON, "geojson"), (TileFormat::JPG, "jpg"), (TileFormat::JPG, "jpeg"), (TileFormat::JSON, "json"), (TileFormat::SVG, "svg"), (TileFormat::TOPOJSON, "topojson"), (TileFormat::WEBP, "webp")];
+		for (i, (format, ext)) in others.iter().enumerate() {
+			let comp = (i % 3) as u8;
+			if *ext != "jpeg" {
+				add(&format!("f{ext}{comp}"), Cont::Versatiles, *format, comp, &mut srcs, &mut args);
+			}
+			let dcomp = ((i + 1) % 3) as u8;
+			let suffix = ["", ".gz", ".br"][dcomp as usize];
+			let files: Vec<(String, Vec<u8>)> = stored.iter().map(|k| (format!("{}/{}/{}.{ext}{suffix}", k.0, k.1, k.2), codec::encode_with(dcomp, &content_of(*k)))).collect();
+			let id = format!("d{ext}{dcomp}");
+			codec::dir_write(&work.0.join(&id), &files).unwrap();
+			args.push(format!("[{id}]{id}"));
+			srcs.push(TileSrc { id, format: *format, tiles: stored.clone(), kind: "directory" });
+		}
+	}
+	// a pipeline file as tile source: an overlay of two directories with different stored compressions, the second one
+	// holding tiles the first one lacks (the served tile may come from either member)
+	{
+		let first: Vec<Key> = vec![stored[0], stored[1]];
+		for (name, keys, comp, suffix) in [("ov_a", &first, 0u8, ""), ("ov_b", &stored, 1u8, ".gz")] {
+			let files: Vec<(String, Vec<u8>)> = keys.iter().map(|k| (format!("{}/{}/{}.pbf{suffix}", k.0, k.1, k.2), codec::encode_with(comp, &content_of(*k)))).collect();
+			codec::dir_write(&work.0.join(name), &files).unwrap();
+		}
+		std::fs::write(work.0.join("overlay.vpl"), "from_overlayed [ from_container filename=\"ov_a\", from_container filename=\"ov_b\" ]").unwrap();
+		args.push("[overlay]overlay.vpl".into());
+		srcs.push(TileSrc { id: "overlay".into(), format: TileFormat::PBF, tiles: stored.clone(), kind: "pipeline file" });
+		std::fs::write(work.0.join("overlay2.vpl"), "from_overlayed [ from_container filename=\"ov_b\", from_container filename=\"vpbf2.versatiles\" ]").unwrap();
+		args.push("[overlay2]overlay2.vpl".into());
+		srcs.push(TileSrc { id: "overlay2".into(), format: TileFormat::PBF, tiles: stored.clone(), kind: "pipeline file" });
+	}
 	// big tiles (gzip and brotli stored) and near-duplicate tiles (uncompressed stored: the server compresses them itself)
 	for (id, keys, comp) in [("vbig", BIG_TILES.iter().map(|b| b.0).collect::<Vec<Key>>(), 1u8), ("vbigbr", vec![BIG_TILES[1].0], 2), ("vnear", NEAR_TILES.to_vec(), 0), ("vneargz", NEAR_TILES.to_vec(), 1)] {
 		let tiles: TileMap = keys.iter().map(|k| (*k, codec::encode_with(comp, &content_of(*k)))).collect();
@@ -595,6 +628,8 @@ pub fn c05(ctx: Arc<Ctx>) {
 	let stored_comp = |id: &str| -> u8 {
 		if id.starts_with("vp") {
 			id[4..].parse().unwrap()
+		} else if (id.starts_with('f') || (id.starts_with('d') && id != "dirsrc")) && id.ends_with(|c: char| c.is_ascii_digit()) {
+			id[id.len() - 1..].parse().unwrap()
 		} else if id == "mb" || id == "ovr" || id == "vbig" || id == "vneargz" {
 			1
 		} else if id == "vbigbr" {
@@ -684,9 +719,18 @@ pub fn c05(ctx: Arc<Ctx>) {
 		par_for(sr.len(), |si| {
 			let s = &sr[si];
 			let mut cl = Client::connect(port).expect("connect");
+			// media types as registered with IANA (pbf: the de-facto type of Mapbox vector tiles served by this project)
 			let mime = match s.format {
 				TileFormat::PBF => "application/x-protobuf",
-				_ => "image/png",
+				TileFormat::PNG => "image/png",
+				TileFormat::AVIF => "image/avif",
+				TileFormat::BIN => "application/octet-stream",
+				TileFormat::GEOJSON => "application/geo+json",
+				TileFormat::JPG => "image/jpeg",
+				TileFormat::JSON => "application/json",
+				TileFormat::SVG => "image/svg+xml",
+				TileFormat::TOPOJSON => "application/topo+json",
+				TileFormat::WEBP => "image/webp",
 			};
 			let sc = stored_comp(&s.id);
 			let mut judge = |target: &str, ae: Option<String>, expect: Option<Key>, numeric_ok: bool, may_400_or_404: bool| {
